@@ -171,6 +171,21 @@ def _bvp_case(arg):
     return res.as_dict()
 
 
+def _stale_on_refill(pot, q, got):
+    """The potential is a function of the CONTENTS of the array it is given (lesson of seeded changes C15-J / C16-L): a work
+    array evaluated, refilled in place with the same points in reversed order, evaluated again.  Returns the deviation."""
+    perm = np.arange(len(q))[::-1]
+    buf = np.array(q, dtype=float, copy=True)
+    pot(buf)
+    buf[...] = np.asarray(q)[perm]
+    again = np.asarray(pot(buf), dtype=float)
+    got = np.asarray(got, dtype=float)
+    if again.shape != got.shape:
+        return np.inf
+    fin = np.isfinite(got[perm])
+    return float(np.max(np.abs(again[fin] - got[perm][fin]), initial=0.0)) if np.all(np.isfinite(again[fin])) else np.inf
+
+
 def _charge_case(arg):
     """Densities whose total charge is zero, negative or small: the computed boundary value q / r and the large-r behaviour
     must follow the sign and size of q (every other analytic case has q = +1)."""
@@ -273,9 +288,12 @@ def _ivp_case(arg):
                 # r_start < outermost radial node is legal: the asymptotic condition V = q/r is imposed there
                 pot = solve_poisson_ivp(g, rho, InverseRTransform(btf), r_interval=(r_start, 1e-3))
                 got = np.asarray(pot(q), dtype=float)
+                stale = _stale_on_refill(pot, q, got)
     except Exception as exc:
         res.violation(f"ivp:raised:{type(exc).__name__}", f"{case}: {exc}", case)
         return res.as_dict()
+    if _gt(stale, 1e-10 * (1 + np.max(np.abs(got[np.isfinite(got)]), initial=0.0))):
+        res.violation("ivp:callable-stale-after-points-refilled-in-place", f"{case}: potential on a refilled work array deviates by {stale:.2e}", case)
     ref = v_gauss(q, CENTRE, alpha)
     err = np.abs(got - ref)
     res.count(len(q))
@@ -407,9 +425,12 @@ def _robust_case(arg):
                 np.random.seed(seed)
                 pot = solve_poisson_robust(g, dens, tf, np.array([z]), CENTRE[None, :], split2=split2)
                 got = np.asarray(pot(q), dtype=float)
+                stale = _stale_on_refill(pot, q, got)
     except Exception as exc:
         res.violation(f"robust:raised:{type(exc).__name__}", f"{case}: {type(exc).__name__}: {exc}", case)
         return res.as_dict()
+    if _gt(stale, 1e-10 * (1 + np.max(np.abs(got[np.isfinite(got)]), initial=0.0))):
+        res.violation("robust:callable-stale-after-points-refilled-in-place", f"{case}: potential on a refilled work array deviates by {stale:.2e}", case)
     if not np.array_equal(dens, snap):
         res.violation("robust:argument-modified", "density values were modified", case)
     res.nontrivial(n=len(q))
@@ -483,9 +504,12 @@ def _robust2_case(arg):
                 pot = solve_poisson_robust(mg, dens, InverseRTransform(btf), atnums=atnums, atcoords=coords, split2=split2,
                                            alphas_basis=basis if split2 else None)
                 got = np.asarray(pot(q), dtype=float)
+                stale = _stale_on_refill(pot, q, got)
         except Exception as exc:
             res.violation(f"robust2:raised:{type(exc).__name__}", f"{case}: {type(exc).__name__}: {exc}", case)
             return res.as_dict()
+    if _gt(stale, 1e-10 * (1 + np.max(np.abs(got[np.isfinite(got)]), initial=0.0))):
+        res.violation("robust2:callable-stale-after-points-refilled-in-place", f"{case}: potential on a refilled work array deviates by {stale:.2e}", case)
     res.nontrivial(n=len(q))
     err = np.abs(got - ref)
     if np.any(~np.isfinite(got)) or _gt(err.max(), 1e-5):
